@@ -168,6 +168,7 @@ func (f *VerifFleet) fault(host, stmt string, mutating bool) (error, bool) {
 		}
 	}
 	f.FaultsUsed = append(f.FaultsUsed, host+":"+stmt+":"+kind)
+	verifnd.Fact("fault", stmt+":"+kind)
 	if !f.Quiet {
 		verifnd.Event("fault " + host + " " + stmt + " " + kind)
 	}
